@@ -147,6 +147,10 @@ class Report(object):
             print('self-test: %d variants (%d breaking, %d neutral): %d behaved as required, %d failed' % (
                 selftest['variants'], selftest['breaking'], selftest['neutral'],
                 len(selftest['passed']), len(selftest['failed'])))
+            ns = selftest.get('neutral_stress')
+            if ns:
+                print('neutral stress: %d behaviour-preserving variants of %d anchored functions: %d alarms' % (
+                    ns['variants'], ns['anchored_functions'], len(ns['alarms'])))
         print('%s %s: %d obligations, %d discharged, %d violations, %d known findings, %.2fs%s' % (
             self.prop, self.tier, self.obligations, self.discharged,
             len(violations), len(knowns), wall,
